@@ -2,7 +2,7 @@
    Statements only.  Proofs: Proofs/RunnerTr.v (trace shape of the serial runner, no invariant of
    the dispatcher needed).  [code_of tr] is the documented exit code as a function of the failure
    reports in the trace: 0 nothing failed, 1 only task failures (TaskFailed), 2 some error. *)
-From DoitV Require Import Base Dispatch Runner RunnerTr.
+From DoitV Require Import Base Dispatch Runner Parallel DispatchP DispatchInv RunnerTr RunnerP ParallelP.
 Open Scope N_scope.
 
 (* serial runner, every table / selection / flags / oracle / fuel: the trace is
@@ -21,6 +21,17 @@ Theorem C19_serial_outcome :
       snd res = match s with StopNormal => code_of body | StopCycle _ | StopHold => 3 | StopInterrupt _ => 4 | StopFuel => 99 end)).
 Proof. exact serial_shape. Qed.
 Print Assumptions C19_serial_outcome.
+
+(* the parallel runners (both flavours, any worker count, EVERY schedule): the exit code is the same
+   function of the failure reports the main process made (whatever order the results arrived in), or one
+   of the exception codes: 3 cyclic dependency, 4 interrupt, 98 = the model's marker for "main thread
+   blocked for ever" (never observed on the implementation; C09), 99 = out of fuel *)
+Theorem C19_parallel_exit_code :
+  forall tasks wake_rank calc_rank continue_ always proc fuel nprocs sched selection,
+  let res := run_parallel tasks wake_rank calc_rank continue_ always proc fuel nprocs sched selection in
+  snd res = code_of (proj (fst res)) \/ In (snd res) [3; 4; 98; 99].
+Proof. exact parallel_exit_code. Qed.
+Print Assumptions C19_parallel_exit_code.
 
 (* the exit-code table, spelled out *)
 Theorem C19_exit_code_table : forall tr,
